@@ -599,6 +599,19 @@ example : (Rx.parseEx true (lit "^b")).map (fun p => Rx.findSubmatchIndexL (lit 
     (Rx.parseEx false (lit "^b")).map (fun p => Rx.findSubmatchIndex (lit "a\nb") p.re p.ng) = some [] := by
   decide +kernel
 
+/-- **The boundary of the fragment: loops over bodies that can match the empty text.**  `([ab]*?)*b` on
+`ababaaa`: the parser refuses it (`unmodelled`), and for a reason – read with plain backtracking priority (one
+more iteration before leaving a greedy loop, iterations must advance) the answer would be `[0,4, 2,3]`, while Go's
+engines answer `[0,2, 0,1]`: they never enter the same instruction twice at one offset, so the second iteration
+dies at the inner loop's exit test that the first iteration has just passed at offset 1.  For such expressions
+Go's answer is not the first derivation in priority order; `corpus/C02/rxnull.case` keeps the examples. -/
+example :
+    (Rx.parse (lit "([ab]*?)*b")).isNone = true ∧ (Rx.parse (lit "(a*)*")).isNone = true ∧
+    (Rx.parse (lit "(a*){2,}")).isNone = true ∧ (Rx.parse (lit "(a*){2,3}")).isSome = true ∧
+    Rx.findSubmatchIndex (lit "ababaaa")
+      (.cat (.star true (.grp 1 (.star false (.cls false [(97, 98)])))) (.cls false [(98, 98)])) 1 = [0, 4, 2, 3] := by
+  decide +kernel
+
 /-- non-vacuity of `rx_counted_repetition`: three `a` in a row for `a{2,3}` -/
 example : Rx.Pow (lit "aaa") (.cls false [(97, 97)]) 3 0 3 :=
   .succ (.cls (b := 97) rfl rfl) (.succ (.cls (b := 97) rfl rfl) (.succ (.cls (b := 97) rfl rfl) (.zero 3)))
